@@ -65,6 +65,16 @@ import (
 // the server's script cache (data kept, store reachable; every member) and restarts of the server
 // with its data (faulty members).
 //
+// SetExpire from another task: RedisLock.SetExpire is an atomic store, i.e. callable while an
+// Acquire / Release of the same instance is running on another goroutine.  In members that draw it
+// (0 = never) a second task issues 1-2 SetExpire calls on the instance while its client task is
+// inside Acquire / Release.  Every SetExpire call is an interval [begin, end] on a logical clock
+// of the harness; a SetExpire is superseded for an Acquire when another SetExpire that began after
+// it had returned has itself returned before the Acquire was invoked.  The lease of a grant must be
+// seconds*1000+500 ms for the seconds of a SetExpire that is not superseded (exactly one value for
+// an Acquire that overlaps no SetExpire: the latest one; either value for an Acquire that overlaps
+// one).  The client's own critical section is sized by the shortest lease it may have been given.
+//
 // Script cache: Acquire and Release run Lua scripts by hash.  A server can lose its script cache
 // while keeping its data and staying reachable (SCRIPT FLUSH, failover to a replica, restart with
 // persistence behind a proxy); it then answers NOSCRIPT to EVALSHA and the client has to send the
@@ -113,11 +123,24 @@ type keyState struct {
 	inCS   []*client
 }
 
+// seWrite is one SetExpire call on an instance: an interval on the harness' logical clock.
+type seWrite struct {
+	val        int
+	begin, end int64
+	done       bool // the call has returned
+}
+
 type client struct {
 	idx     int
 	k       *keyState
 	lock    *redis.RedisLock
-	seconds int
+	seconds int // value of the SetExpire call that began last (0 = none yet)
+	// SetExpire calls that are not superseded for the current / next Acquire (the first entry of a
+	// fresh instance is the constructor's "0 seconds"), values of the superseded ones, and whether a
+	// SetExpire of another task ever began while an Acquire / Release of this instance was running
+	writes     []*seWrite
+	superseded []int
+	raced      bool
 	id      string
 	idKnown bool
 
@@ -156,6 +179,8 @@ type world struct {
 	newStore func(kind int) *redis.Redis
 	maxSec   int
 	lost     int // times the server lost its script cache so far (restarts included)
+	clk      int64 // logical clock for SetExpire / Acquire intervals
+	concSet  int   // SetExpire from another task during Acquire / Release: 0 never, 1 some calls, 2 every other call
 	// a verdict about a script executed by a task that is no client of the harness has been given
 	// (lock-script-outside-call / lock-script-by-unknown-caller)
 	foreignVerdict bool
@@ -172,7 +197,64 @@ func (w *world) fail(class, format string, a ...any) {
 	w.r.Fail(class, format, a...)
 }
 
-func lease(cl *client) time.Duration { return time.Duration(cl.seconds*1000+500) * ms }
+func leaseOf(seconds int) time.Duration { return time.Duration(seconds*1000+500) * ms }
+
+func (w *world) tick() int64 { w.clk++; return w.clk }
+
+func (w *world) newClient(k *keyState, store *redis.Redis, kind int, lock *redis.RedisLock) *client {
+	return &client{idx: len(w.cls), k: k, store: store, storeKind: kind, lock: lock, writes: []*seWrite{{done: true}}}
+}
+
+// beginCall is the invocation of an Acquire at logical instant now: SetExpire calls that were
+// overwritten by a later SetExpire which returned before now cannot be what this (or any later)
+// Acquire uses.
+func (cl *client) beginCall(now int64) {
+	var keep []*seWrite
+	for _, x := range cl.writes {
+		dom := false
+		if x.done {
+			for _, y := range cl.writes {
+				if y.done && y.end < now && y.begin > x.end {
+					dom = true
+					break
+				}
+			}
+		}
+		if dom {
+			cl.superseded = append(cl.superseded, x.val)
+		} else {
+			keep = append(keep, x)
+		}
+	}
+	cl.writes = keep
+}
+
+// leases an Acquire invoked at the last beginCall may be granted (distinct values, oldest SetExpire first).
+func (cl *client) leases() []time.Duration {
+	var out []time.Duration
+next:
+	for _, x := range cl.writes {
+		l := leaseOf(x.val)
+		for _, o := range out {
+			if o == l {
+				continue next
+			}
+		}
+		out = append(out, l)
+	}
+	return out
+}
+
+func (cl *client) minLease() time.Duration {
+	ls := cl.leases()
+	m := ls[0]
+	for _, l := range ls {
+		if l < m {
+			m = l
+		}
+	}
+	return m
+}
 
 // who names the owner of a stored value without ever printing it.
 func (w *world) who(val string) string {
@@ -331,7 +413,6 @@ func (w *world) execAcquire(cl *client, e *simredis.Exec, now time.Duration, rep
 		}
 	}
 	w.settle(k, now)
-	L := lease(cl)
 	cl.execs = append(cl.execs, execRec{granted: granted, at: now, fault: e.Fault})
 	for _, o := range w.cls {
 		if o != cl && o.k == k && o.op == opAcquire {
@@ -384,6 +465,29 @@ func (w *world) execAcquire(cl *client, e *simredis.Exec, now time.Duration, rep
 	if lostReply(e.Fault) {
 		r.Probe("reply-lost-after-grant")
 	}
+	// the lease of this grant is what the store says right after the execution; it must be the lease
+	// of a SetExpire that is not superseded for this Acquire
+	mr := w.srv.MR()
+	ttl := mr.TTL(k.name)
+	allowed := cl.leases()
+	L, leaseOK := allowed[len(allowed)-1], false
+	for i, a := range allowed {
+		if a == ttl {
+			L, leaseOK = ttl, true
+			if len(allowed) > 1 {
+				if i == 0 {
+					r.Probe("grant-used-the-lease-from-before-the-overlapping-setexpire")
+				} else {
+					r.Probe("grant-used-the-lease-of-an-overlapping-setexpire")
+				}
+			}
+		}
+	}
+	if len(allowed) > 1 {
+		r.Probe("grant-with-more-than-one-lease-allowed")
+	} else if cl.raced {
+		r.Probe("grant-with-one-lease-allowed-after-an-earlier-call-overlapped-a-setexpire")
+	}
 	switch {
 	case L >= (1<<32)*ms:
 		r.Probe("grant-with-lease-beyond-2^32-ms")
@@ -393,21 +497,33 @@ func (w *world) execAcquire(cl *client, e *simredis.Exec, now time.Duration, rep
 		r.Probe("grant-with-lease-longer-than-one-hour")
 	case L > 6*time.Second:
 		r.Probe("grant-with-lease-of-minutes")
-	case cl.seconds == 0:
+	case L == 500*ms:
 		r.Probe("grant-with-zero-seconds")
 	}
 	k.holder, k.expiry = cl.idx, now+L
 	cl.holdActive, cl.from, cl.until, cl.stale = true, now, now+L, false
 	cl.everGranted, cl.releasedSinceGrant = true, false
 	// the store right after the grant
-	mr := w.srv.MR()
 	if v, err := mr.Get(k.name); err != nil || v != id {
 		w.fail("granted-but-key-not-holders", "key %s after the grant to instance %d: stored value is %s (err %v)", k.label, cl.idx, w.who(v), err)
 		return
 	}
-	if ttl := mr.TTL(k.name); ttl != L {
-		w.fail("lease-length-wrong", "key %s granted to instance %d with seconds=%d: time to live is %v, the lease must be %v", k.label, cl.idx, cl.seconds, ttl, L)
+	if leaseOK {
+		return
 	}
+	if cl.raced {
+		for _, s := range cl.superseded {
+			if leaseOf(s) == ttl {
+				w.fail("lease-of-superseded-setexpire-after-concurrent-setexpire", "key %s granted to instance %d at %v: time to live is %v, the lease for seconds=%d, but that setting was followed by SetExpire call(s) that had returned before this Acquire was invoked (the lease must be %v); another task called SetExpire on the instance while an earlier Acquire / Release of it was running", k.label, cl.idx, now, ttl, s, allowed)
+				return
+			}
+		}
+	}
+	if len(allowed) > 1 {
+		w.fail("lease-length-wrong", "key %s granted to instance %d at %v while SetExpire was called from another task: time to live is %v, the lease must be one of %v", k.label, cl.idx, now, ttl, allowed)
+		return
+	}
+	w.fail("lease-length-wrong", "key %s granted to instance %d with seconds=%d: time to live is %v, the lease must be %v", k.label, cl.idx, cl.seconds, ttl, L)
 }
 
 func (w *world) execRelease(cl *client, e *simredis.Exec, now time.Duration) {
@@ -673,8 +789,10 @@ func (w *world) acquire(cl *client) (ok bool, err error, inv, L time.Duration) {
 	r := w.r
 	ctx, cancel, how := w.drawCtx(cl)
 	cl.op, cl.execs, cl.noscr = opAcquire, cl.execs[:0], 0
-	inv, L = r.Elapsed(), lease(cl)
+	inv = r.Elapsed()
+	cl.beginCall(w.tick())
 	cl.nAcq++
+	setter := w.setExpireFromAnotherTask(cl, "acquire")
 	if ctx == nil {
 		ok, err = cl.lock.Acquire()
 	} else {
@@ -686,13 +804,18 @@ func (w *world) acquire(cl *client) (ok bool, err error, inv, L time.Duration) {
 	ctxEnded := ctx != nil && ctx.Err() != nil
 	cancel()
 	cl.op, cl.cancelAt = opNone, 0
+	if setter != nil {
+		r.Join(setter)
+	}
+	// the caller cannot know which of the overlapping SetExpire values its lease has: it relies on the shortest
+	L = cl.minLease()
 	if err != nil {
 		w.errProbe(err)
 		w.healthyStoreError(cl, "Acquire", "acquire", err, ctxEnded)
 	}
 	n := len(cl.execs)
 	r.Ev("acquire", int64(cl.idx), b2i(ok), b2i(err != nil), int64(n))
-	w.note(cl, "Acquire%s seconds=%d -> (%v, err=%v) server executions=%d", how, cl.seconds, ok, err != nil, n)
+	w.note(cl, "Acquire%s leases allowed=%v -> (%v, err=%v) server executions=%d", how, cl.leases(), ok, err != nil, n)
 	if n >= 2 {
 		r.Probe("retry-executed-twice")
 	}
@@ -720,6 +843,7 @@ func (w *world) release(cl *client) {
 	ctx, cancel, how := w.drawCtx(cl)
 	cl.op, cl.execs, cl.noscr = opRelease, cl.execs[:0], 0
 	cl.nRel++
+	setter := w.setExpireFromAnotherTask(cl, "release")
 	var ok bool
 	var err error
 	if ctx == nil {
@@ -730,6 +854,9 @@ func (w *world) release(cl *client) {
 	ctxEnded := ctx != nil && ctx.Err() != nil
 	cancel()
 	cl.op, cl.cancelAt = opNone, 0
+	if setter != nil {
+		r.Join(setter)
+	}
 	if err != nil {
 		w.errProbe(err)
 		w.healthyStoreError(cl, "Release", "release", err, ctxEnded)
@@ -913,13 +1040,83 @@ func (w *world) setExpire(cl *client) {
 	} else if s < cl.seconds {
 		w.r.Probe("setexpire-shorter-than-before")
 	}
-	cl.lock.SetExpire(s)
+	w.setExpireCall(cl, s, false)
+}
+
+// setExpireCall is one SetExpire(s) on the instance of cl, by its client task between two of its
+// operations or (other) by another task while the client task may be inside Acquire / Release.
+func (w *world) setExpireCall(cl *client, s int, other bool) {
+	r := w.r
+	wr := &seWrite{val: s, begin: w.tick()}
+	cl.writes = append(cl.writes, wr)
 	cl.seconds = s
 	if s > w.maxSec {
 		w.maxSec = s
 	}
-	w.r.Ev("setexpire", int64(cl.idx), int64(s))
-	w.note(cl, "SetExpire(%d)", s)
+	during := cl.op
+	if other {
+		switch {
+		case during == opAcquire && len(cl.execs) == 0:
+			r.Probe("setexpire-of-another-task-began-inside-acquire-before-the-script-was-executed")
+			cl.raced = true
+		case during == opAcquire:
+			r.Probe("setexpire-of-another-task-began-inside-acquire-after-the-script-was-executed")
+			cl.raced = true
+		case during == opRelease:
+			r.Probe("setexpire-of-another-task-began-inside-release")
+			cl.raced = true
+		default:
+			r.Probe("setexpire-of-another-task-began-after-the-call-returned")
+		}
+	}
+	cl.lock.SetExpire(s)
+	wr.end, wr.done = w.tick(), true
+	if other && during != opNone && cl.op == during {
+		r.Probe("setexpire-of-another-task-returned-inside-the-call")
+	}
+	o := int64(0)
+	if other {
+		o = 1
+	}
+	r.Ev("setexpire", int64(cl.idx), int64(s), o)
+	if other {
+		w.note(cl, "SetExpire(%d) by another task (client task inside %s)", s, opName(during))
+	} else {
+		w.note(cl, "SetExpire(%d)", s)
+	}
+}
+
+// setExpireFromAnotherTask: 0 = none.  The task is started runnable just before the client task
+// enters Acquire / Release; where it runs relative to the call is the scheduler's choice.
+func (w *world) setExpireFromAnotherTask(cl *client, during string) *simrt.Task {
+	if w.concSet == 0 {
+		return nil
+	}
+	t, r := w.r.Tape, w.r
+	if !t.Chance(1, []int{1, 6, 2}[w.concSet]) {
+		return nil
+	}
+	vals := []int{w.drawSeconds()}
+	if t.Chance(1, 4) {
+		vals = append(vals, w.drawSeconds())
+	}
+	yields, own := t.Intn(4), t.Intn(3)
+	r.Probe("setexpire-from-another-task-started-with-" + during)
+	st := r.Go(fmt.Sprintf("setexpire-i%d", cl.idx), func() {
+		for _, s := range vals {
+			for y := 0; y < yields; y++ {
+				r.Yield()
+			}
+			w.setExpireCall(cl, s, true)
+		}
+	})
+	// the client task may lose the processor on its way into the call, so that the call also starts
+	// in the middle of a SetExpire (the invocation instant of the oracle stays where it was taken:
+	// before the other task existed)
+	for ; own > 0; own-- {
+		r.Yield()
+	}
+	return st
 }
 
 const maxInstances = 9
@@ -936,7 +1133,7 @@ func (w *world) replace(old *client) *client {
 	}
 	lock := redis.NewRedisLock(store, old.k.name)
 	// no scheduling point between taking the index and the append (constructors may yield)
-	cl := &client{idx: len(w.cls), k: old.k, store: store, storeKind: kind, lock: lock}
+	cl := w.newClient(old.k, store, kind, lock)
 	w.cls = append(w.cls, cl)
 	r.Probe("instance-replaced")
 	if old.holdActive {
@@ -1180,6 +1377,10 @@ func body(r *simrt.Run, tier string) {
 		return shared
 	}
 	perInstanceStore := t.Bool()
+	w.concSet = t.Intn(3)
+	if w.concSet > 0 {
+		r.Probe("member-with-setexpire-from-another-task")
+	}
 	for i := 0; i < nKeys; i++ {
 		w.keys = append(w.keys, &keyState{name: keySpellings[spelling][i], label: fmt.Sprintf("key%d", i), holder: -1})
 	}
@@ -1194,7 +1395,8 @@ func body(r *simrt.Run, tier string) {
 		if i >= 2 {
 			k = w.keys[t.Intn(nKeys)]
 		}
-		cl := &client{idx: i, k: k, store: store, storeKind: kind, lock: redis.NewRedisLock(store, k.name)}
+		lock := redis.NewRedisLock(store, k.name)
+		cl := w.newClient(k, store, kind, lock) // (no scheduling point between taking the index and the append)
 		w.cls = append(w.cls, cl)
 		steps[i] = t.Range(1, maxSteps)
 	}
@@ -1214,7 +1416,7 @@ func body(r *simrt.Run, tier string) {
 		r.Probe("five-or-six-instances-run")
 	}
 	if r.Tracing() {
-		r.Logf("c19: instances=%d keys=%d (%s, %s) steps=%v faulty=%v rates=%+v outages=%d dialRefusePerMille=%d overstay=%v wide=%v perInstanceStore=%v scriptCacheLostPerMille=%d at=%v restarts=%v", nInst, nKeys, show(keySpellings[spelling][0]), show(keySpellings[spelling][1]), steps, w.faulty, rates, outages, dialRate, w.overstay, w.wide, perInstanceStore, lossPM, lossGaps, restartGaps)
+		r.Logf("c19: instances=%d keys=%d (%s, %s) steps=%v faulty=%v rates=%+v outages=%d dialRefusePerMille=%d overstay=%v wide=%v perInstanceStore=%v setExpireFromAnotherTask=%d scriptCacheLostPerMille=%d at=%v restarts=%v", nInst, nKeys, show(keySpellings[spelling][0]), show(keySpellings[spelling][1]), steps, w.faulty, rates, outages, dialRate, w.overstay, w.wide, perInstanceStore, w.concSet, lossPM, lossGaps, restartGaps)
 	}
 	var tasks []*simrt.Task
 	for i, cl := range w.cls {
@@ -1319,7 +1521,7 @@ func body(r *simrt.Run, tier string) {
 		r.Probe("nontrivial")
 	}
 	r.Sample(map[string]any{"instances": nInst, "instances_incl_replacements": len(w.cls), "keys": nKeys, "key_spelling": spelling, "longest_seconds_configured": w.maxSec, "wide": w.wide, "steps_per_client": steps, "faulty": w.faulty, "clients_overstay_lease": w.overstay,
-		"acquires": nA, "releases": nR, "server_executions": srv.Executed(), "script_cache_lost_per_mille_of_commands": lossPM, "script_cache_lost_at_drawn_instants": len(lossGaps), "restarts_with_data": len(restartGaps), "script_cache_lost": w.lost,
+		"acquires": nA, "releases": nR, "server_executions": srv.Executed(), "script_cache_lost_per_mille_of_commands": lossPM, "script_cache_lost_at_drawn_instants": len(lossGaps), "restarts_with_data": len(restartGaps), "script_cache_lost": w.lost, "setexpire_from_another_task_during_calls": w.concSet,
 		"faults_fired": srv.FiredMap(), "history_head": w.log})
 }
 
